@@ -71,6 +71,9 @@ func run14(c Case14, p url.Parser, bases []*url.Url, o Op14) string {
 			return result14(url.Parse(string(o.Value)))
 		}
 		return result14(p.Parse(string(o.Value)))
+	case "parse-other":
+		// the same kind of call through a second, differently configured parser in the same program
+		return result14(interferingParsers[0].Parse(string(o.Value)))
 	case "parseref":
 		if c.Parser == "package" {
 			return result14(url.ParseRef(bs, string(o.Value)))
@@ -279,6 +282,10 @@ func Check14(c Case14, r *core.Rec) {
 			pp := buildParser14(c)
 			pb := parseBases(c, pp, true)
 			plive := liveBases(c, pb)
+			// an unrelated call in between, so that "run alone" does not inherit a one-entry memo from
+			// the operation evaluated just before
+			_, _ = url.Parse("http://flush.example/?flush#flush")
+			_, _ = interferingParsers[0].Parse("http://flush2.example/")
 			expected[g] = append(expected[g], run14(c, pp, plive.urls, remap(o, plive)))
 		}
 	}
@@ -321,9 +328,11 @@ func remap(o Op14, l liveSet) Op14 { return o }
 
 // ---- generator ----------------------------------------------------------------------------------------
 
-var c14Bases = []string{"file:///C:/d/e?q=1#f", "foo:opaque?q#f", "mailto:a@b  ?x", "http://h/p?a=1&b=2#f", "http://u:p@h:8/a/b/c?k=v#f", "foo://h/p?x=y", "file:///C:/d/e?q=1", "http://1.2.3.4/x?y", "http://[::1]/?z", "foo:/p/q?r", "http://example.com/a/b/../c?d=e&f", "https://faß.de/ä?ö#ü", "ws://h/", "http://h/a//b/"}
+var c14LongPath = "http://h/" + strings.Repeat("seg/", 40) + "x?q=1#f"
+
+var c14Bases = []string{c14LongPath, "foo://h/" + strings.Repeat("a/", 33), "file:///C:/d/e?q=1#f", "foo:opaque?q#f", "mailto:a@b  ?x", "http://h/p?a=1&b=2#f", "http://u:p@h:8/a/b/c?k=v#f", "foo://h/p?x=y", "file:///C:/d/e?q=1", "http://1.2.3.4/x?y", "http://[::1]/?z", "foo:/p/q?r", "http://example.com/a/b/../c?d=e&f", "https://faß.de/ä?ö#ü", "ws://h/", "http://h/a//b/"}
 var c14Refs = []string{"x", "/y", "../z", "?q=1", "#f", "", "//other/p", "http://abs/", "./a/b", "C|/x", "\\\\h\\p", " a b ", "%zz", "é", "//[::2]/", "//9.8.7.6/", "a?b#c"}
-var c14Inputs = []string{"http://example.com/", "HTTP://EXAMPLE.com:80/a/../b?x#y", "foo:bar", "file:///C|/x", "http://[1:0:0:2::3]/", "http://0x7f.1/", "http://faß.de/", "not a url", "http://h:99999/", "www.example.com/path", "http://a b/", "http://h/%zz?%zz#%zz", "http://u:p@h/", "//h", "http://h/?b=2&a=1&a=0", "https://日本語.jp/パス"}
+var c14Inputs = []string{"http://a\u200db.example/", "http://xn--a.example/", "http://a\u200db.example/", "https://\u05d01.com/", "http://example.com/", "HTTP://EXAMPLE.com:80/a/../b?x#y", "foo:bar", "file:///C|/x", "http://[1:0:0:2::3]/", "http://0x7f.1/", "http://faß.de/", "not a url", "http://h:99999/", "www.example.com/path", "http://a b/", "http://h/%zz?%zz#%zz", "http://u:p@h/", "//h", "http://h/?b=2&a=1&a=0", "https://日本語.jp/パス"}
 
 func Gen14(t *rapid.T) Case14 {
 	var c Case14
@@ -374,7 +383,7 @@ func Gen14(t *rapid.T) Case14 {
 		c.Setup = append(c.Setup, setup)
 	}
 	ng := rapid.IntRange(2, 8).Draw(t, "goroutines")
-	kinds := []string{"resolve", "resolve", "resolve", "getters", "getters", "clone", "parse", "parseref", "encode", "derive"}
+	kinds := []string{"resolve", "resolve", "resolve", "getters", "getters", "clone", "parse", "parse", "parse-other", "parseref", "encode", "derive"}
 	for g := 0; g < ng; g++ {
 		n := rapid.IntRange(1, 6).Draw(t, "nops")
 		var script []Op14
@@ -387,7 +396,7 @@ func Gen14(t *rapid.T) Case14 {
 				} else {
 					o.Value = B(gen.Pick(t, "ref", c14Refs))
 				}
-			case "parse":
+			case "parse", "parse-other":
 				if rapid.IntRange(0, 4).Draw(t, "inKind") == 0 {
 					o.Value = B(gen.Input(t, "input"))
 				} else {
@@ -409,7 +418,7 @@ func Gen14(t *rapid.T) Case14 {
 
 var P14 = core.Register(core.Prop[Case14]{
 	ID: "C14",
-	Rule: "generated concurrent programs: one shared parser (package-level functions, default parser, one of the four predefined profiles, or 1..4 generated options), 1..3 shared base URLs parsed with it, a third of them with a sequential history of 1..3 setters / resolutions / clones behind them, half never touched after that (so lazily created state does not exist yet), 2..8 goroutines released from one barrier, each with a script of 1..6 read-only operations (Parse, ParseRef with a shared base string, (*Url).Parse on a shared base, all pure getters of a shared base, Clone of a shared base, PercentEncodeString with shared named sets, Set/Clear derivations from shared named sets); " +
+	Rule: "generated concurrent programs: one shared parser (package-level functions, default parser, one of the four predefined profiles, or 1..4 generated options), 1..3 shared base URLs parsed with it, a third of them with a sequential history of 1..3 setters / resolutions / clones behind them, half never touched after that (so lazily created state does not exist yet), 2..8 goroutines released from one barrier, each with a script of 1..6 read-only operations (Parse, the same through a second differently configured parser, ParseRef with a shared base string, (*Url).Parse on a shared base, all pure getters of a shared base, Clone of a shared base, PercentEncodeString with shared named sets, Set/Clear derivations from shared named sets); " +
 		"oracle (test binary built with -race): (1) the race detector's log does not grow during the program, (2) every operation's result equals the result of the same operation run alone on private copies, (3) fingerprints of every exported package-level table and behavioural probes of the unexported ones are unchanged; " +
 		"non-trivial = at least 2 goroutines use the same base URL and at least one of them resolves against it; distinct by hash of the program",
 	Gen:   Gen14,
